@@ -11,6 +11,8 @@ vectors are only ever touched by one thread at a time in PoolAllocatorT<true>):
   C42.clear-reuse  clear() moves every slab of backingAllocs_ to backingAllocs2_ (so allocFunc_ is not
                    called again while reusable slabs exist) and alloc() consults backingAllocs2_
                    before allocFunc_.
+  C42.chunk-count  the constructor's chunksPerAlloc_, evaluated for slab sizes that are and are not
+                   multiples of the chunk size, satisfies 1 <= n and n * chunkSize <= allocSize.
   C42.dtor-all     the destructor hands every element of both slab lists to deallocFunc_, once each.
 """
 from lib import dataflow, lockregion
@@ -19,7 +21,7 @@ from lib.rules import field_name, lvalue_path
 
 LEVEL = "proof"
 EXPLANATION = __doc__
-NOT_DECIDED = ["chunk disjointness arithmetic (buffer += chunkSize_)", "NoLockPoolAllocator used concurrently (outside its contract)"]
+NOT_DECIDED = ["chunk disjointness arithmetic (buffer += chunkSize_) beyond the chunk count per slab", "NoLockPoolAllocator used concurrently (outside its contract)"]
 CLS = "dispenso::PoolAllocatorT"
 LOCK = CLS + "::backingAllocLock_"
 PROT = {CLS + "::chunks_", CLS + "::backingAllocs_", CLS + "::backingAllocs2_"}
@@ -102,3 +104,36 @@ def run(R):
         ok = len(frees) == 2 and len(lists) == 2 and all(e.get("loop") for _, e in frees) and frees[0][1].get("loop") != frees[1][1].get("loop")
         R.ob("C42.dtor-all", fn, fn.loc, ok, "both slab lists are released element-wise" if ok else "destructor does not release both slab lists exactly once", sitekey="dtor:" + fn.raw.get("clsinst", "")[-7:], why="every slab is returned with deallocFunc exactly once")
     R.need("C42.slabs", ns, 6, "alloc / clear / destructor instantiations")
+    chunk_count_rule(R)
+
+
+def chunk_count_rule(R):
+    """C42.chunk-count: alloc() carves chunksPerAlloc_ chunks of chunkSize_ bytes out of every slab of
+    allocSize_ bytes. The constructor's value for chunksPerAlloc_, evaluated for slab sizes that are and
+    are not multiples of the chunk size, satisfies 1 <= n and n * chunkSize <= allocSize (a round-up
+    division puts the last chunk past the end of the slab)."""
+    from lib.rules import eval_int
+    F = R.F
+    n = 0
+    for fn in F.functions(qname=CLS + "::(ctor)"):
+        cs = [p for p in fn.params if p.get("name") == "chunkSize"]
+        asz = [p for p in fn.params if p.get("name") == "allocSize"]
+        if not cs or not asz:
+            continue
+        for pos, e in fn.events():
+            if e.get("k") == "init" and e.get("fname") == "chunksPerAlloc_":
+                n += 1
+                bad, unknown = None, False
+                for c, a in ((64, 256), (32, 128), (128, 128), (48, 256), (24, 100), (40, 4096), (7, 64)):
+                    v = eval_int(fn, e.get("init"), lambda x, c=c, a=a: (c if x.get("vid") == cs[0]["vid"] else (a if x.get("vid") == asz[0]["vid"] else None)) if x.get("k") == "var" else None)
+                    if v is None:
+                        unknown = True
+                    elif not (v >= 1 and v * c <= a) and bad is None:
+                        bad = (c, a, v)
+                if unknown and bad is None:
+                    R.inconclusive("C42.chunk-count", "cannot evaluate the chunksPerAlloc_ initialiser %s" % expr_str(e.get("init")))
+                    continue
+                R.ob("C42.chunk-count", fn, e, bad is None, "chunksPerAlloc_ chunks fit into one slab for every (chunkSize, allocSize) tried" if bad is None else
+                     "chunksPerAlloc_ = %s gives %d chunks of %d bytes for a slab of %d bytes: the last chunk extends %d bytes past the slab" % (expr_str(e.get("init")), bad[2], bad[0], bad[1], bad[2] * bad[0] - bad[1]),
+                     sitekey="chunksPerAlloc:" + fn.raw.get("clsinst", "")[-7:], why="every chunk handed out lies within a slab obtained from allocFunc")
+    R.need("C42.chunk-count", n, 2, "PoolAllocatorT constructors")
